@@ -136,6 +136,13 @@ class Tree:
                 if len(pl["proj"]) == 1 and pl["proj"][0]["k"] == "deref": local = pl["local"]; continue
                 return pl
             if rv["k"] in ("use", "cast") and rv["op"]["k"] in ("copy", "move") and not rv["op"]["place"]["proj"]: local = rv["op"]["place"]["local"]; continue
+            # one component of a tuple / struct of references built just before: `let (a, b) = (&mut self.x, &mut self.y);`
+            if rv["k"] == "use" and rv["op"]["k"] in ("copy", "move") and len(rv["op"]["place"]["proj"]) == 1 and rv["op"]["place"]["proj"][0]["k"] == "field":
+                ds2 = fn.defs1(rv["op"]["place"]["local"])
+                if len(ds2) == 1 and ds2[0][2]["k"] == "assign" and ds2[0][2]["rv"]["k"] == "aggr":
+                    flds = ds2[0][2]["rv"]["fields"]; i_ = rv["op"]["place"]["proj"][0].get("i")
+                    if isinstance(i_, int) and i_ < len(flds) and flds[i_]["k"] in ("copy", "move") and not flds[i_]["place"]["proj"]:
+                        local = flds[i_]["place"]["local"]; continue
             return None
         return None
 
@@ -367,6 +374,14 @@ class Tree:
             # through Try::branch
             if isinstance(on, tuple) and on[0] == "call" and on[1].endswith("Try>::branch") and norm(on[2][0]) == norm(me):
                 return (br["bb"], br["targets"].get(0, br["otherwise"])), (br["bb"], br["targets"].get(1, br["otherwise"]))
+        # `if call(..).is_err() { .. }` / `.is_ok()` / `.is_some()` / `.is_none()`: the boolean's edges are the result's edges
+        for br in self.branches(fn):
+            if br["kind"] != "bool" or br["cond"][0] != "call": continue
+            m_ = method_of(br["cond"][1])
+            if m_ not in ("is_err", "is_ok", "is_some", "is_none") or not br["cond"][2]: continue
+            if norm(peel(br["cond"][2][0])) != norm(me): continue
+            good, bad_ = (br["t_edge"], br["f_edge"]) if m_ in ("is_ok", "is_some") else (br["f_edge"], br["t_edge"])
+            return good, bad_
         return None
 
     def variant_map(self, fn, place):
@@ -533,6 +548,23 @@ def _rel_edges_direct(t, fn, lhs_pred, rhs_pred, rel):
                 if lhs_pred(p_) and rhs_pred(q_) and o == rel: hit = True
             if not hit: good = False; break
         if good: yield some_e, br
+    # `match a.cmp(&b) { Less => .., Equal => .., Greater => .. }`: the discriminant of Ordering is -1 (255) / 0 / 1
+    for br in t.branches(fn):
+        if br["kind"] != "discr": continue
+        on = strip(br["on"])
+        if not (isinstance(on, tuple) and on[0] == "call" and method_of(on[1]) in ("cmp",) and ("Ord" in on[1] or "cmp::" in on[1]) and len(on[2]) == 2): continue
+        a, b = strip(on[2][0]), strip(on[2][1])
+        NAMES = {255: "Lt", -1: "Lt", 0: "Eq", 1: "Gt"}
+        by_tgt = {}
+        for v, tgt in br["targets"].items(): by_tgt.setdefault(tgt, set()).add(NAMES.get(v, "?"))
+        rest = {"Lt", "Eq", "Gt"} - {NAMES.get(v, "?") for v in br["targets"]}
+        if rest: by_tgt.setdefault(br["otherwise"], set()).update(rest)
+        UNION = {frozenset({"Lt"}): "Lt", frozenset({"Eq"}): "Eq", frozenset({"Gt"}): "Gt", frozenset({"Lt", "Eq"}): "Le", frozenset({"Eq", "Gt"}): "Ge", frozenset({"Lt", "Gt"}): "Ne"}
+        for tgt, rs in by_tgt.items():
+            o = UNION.get(frozenset(rs))
+            if o is None: continue
+            for (x, y, oo) in ((a, b, o), (b, a, MIRROR[o])):
+                if lhs_pred(x) and rhs_pred(y) and oo == rel: yield (br["bb"], tgt), br; break
     # `match a.checked_sub(b) { Some(v) => .., None => .. }`: None edge means a < b, Some edge a >= b
     for br in t.branches(fn):
         if br["kind"] != "discr": continue
